@@ -315,3 +315,16 @@ def run(ctx, col: Collector):
                       f'where the owner link is absent: a detached element yields a result instead of the error',
                       node=bad.node if bad is not None and bad.node is not None else fi.node, file=fi.file)
     guarded(col, 'C17-detached', 'detached-lookups', detached)
+
+    def detaching():
+        # "detached" is read off the owner link: the error is raised for an element taken out of its database / table only if the delete operation
+        # cleared the link of the element that was actually removed (obligations shared with C09-backptr)
+        sub = ctx.sub('c09', col.prop)
+        n = 0
+        for o in sub.obs:
+            if o.rule == 'C09-backptr' and o.construct in ('Database.delete_table:clears-owner', 'Table.delete_column:detaches-removed',
+                                                           'Table.delete_index:detaches-removed'):
+                n += 1
+                col.obs.append(type(o)(col.prop, 'C17-detached', 'detaching:' + o.construct, o.status, o.msg, o.file, o.line, o.extra))
+        col.floor('C17-detached', 'delete operations clearing the owner link', n, 3)
+    guarded(col, 'C17-detached', 'detaching', detaching)
